@@ -11,6 +11,7 @@ import CxxModel.Theorems.ParamGen
 import CxxModel.Theorems.ArrayDecl
 import CxxModel.Theorems.AliasPre
 import CxxModel.Theorems.BitsDecl
+import CxxModel.Theorems.InitPre
 import CxxModel.Theorems.MemberKinds
 namespace Cxx
 open P
@@ -396,6 +397,27 @@ def Member.bitFieldPre (v : DeclToks) (colon num : Tok) : Member env F (core F (
         toplevel_field_bits_pre env hp F (D + 1 + 1) w v.spec f r v.segs v.cst v.vol (tvs v.ops) v.ops v.x colon num v.semi v.d1 b1 b0 bmid bx bc bn b' blk rest hst hk acc hacc hmu
           (by rw [hnf]; simp) hspec hfr hfirst h1 h5 hhead h8 hpre hfn rfl h10 hx hxv h11 hc h12 hn hdig hy.single_inv hs hF
       exact ⟨w7, _, ev, hi7, hsig7, hst7, hev7, ⟨dox, hk7, hid7, hpar7⟩, hmu7⟩)
+
+/-- `S prefix x = value ;` at namespace scope (loop bound `G + 1`: the value is collected by a loop of its own): the value is
+    EXACTLY the written tokens -/
+def Item.variableInitPre (G : Nat) (v : DeclToks) (eq : Tok) (vals : List Tok) : Item env (G + 1) (core (G + 1) (D + 1 + 1 + 1 + 1)) :=
+  Item.ofToks env (G + 1) (v.spec ++ (v.ops ++ (v.x :: eq :: (vals ++ [v.semi]))))
+    (v.OK env (G + 1) (D + 1 + 1) ∧ eq.type = "=" ∧ TopLevel [",", ";"] (vals.map (·.type)) ∧ vals.length + 1 ≤ G)
+    (fun blk rest ev => ∃ dox, ItemEvent blk rest ev (.variable (initVariable v.x v.d1 vals dox)))
+    (by
+      intro w b' blk rest hst hk hmu ⟨hok, he, htl, hFv⟩ hy
+      obtain ⟨hspec, ⟨f, r, hfr, hfirst⟩, hhead, hpre, hfn, hx, hxv, hs, _⟩ := hok
+      rw [hfr] at hy
+      obtain ⟨b1, h1, hy⟩ := Yields.cons_inv hy
+      obtain ⟨b0, h5, hy⟩ := hy.split
+      obtain ⟨bmid, h8, hy⟩ := hy.split
+      obtain ⟨bx, h10, hy⟩ := hy.cons_inv
+      obtain ⟨bq, h11, hy⟩ := hy.cons_inv
+      obtain ⟨bv, hyv, hy⟩ := hy.split
+      obtain ⟨d, bD, w7, ct, dox, ev, _, hi7, hsig, _, hst7, hev7, hk7, hid7, hpar7, _, _, _, hmu7, _⟩ :=
+        toplevel_variable_init_pre env hp G (D + 1 + 1) w v.spec f r v.segs v.cst v.vol (tvs v.ops) v.ops v.x eq vals v.semi v.d1 b1 b0 bmid bx bq bv b' blk rest hst hk hmu
+          (by rw [hnf]; simp) hspec hfr hfirst h1 h5 hhead h8 hpre hfn rfl h10 hx hxv h11 he hyv htl hy.single_inv hs hFv
+      exact ⟨w7, _, ev, hi7, hsig, hst7, hev7, ⟨dox, hk7, hid7, hpar7⟩, hmu7⟩)
 
 end kinds
 
